@@ -9,5 +9,8 @@ fi
 tools/build.sh > build/setup.log 2>&1
 rc=$?
 tail -n 5 build/setup.log
+# the translator tie (Python source -> Gallina -> link lemmas) against the unchanged tree: reported, not fatal here; every
+# wired check re-runs it against the current source
+[ -x translator/selftest.sh ] && { timeout 600 translator/selftest.sh >> build/setup.log 2>&1 || echo "setup: translator selftest reported a problem (see build/setup.log)"; }
 [ -x tools/build_ocaml.sh ] && { tools/build_ocaml.sh >> build/setup.log 2>&1 || rc=1; }
 exit $rc
